@@ -1,8 +1,8 @@
 import RgVerif.Lemmas.SearcherC01
 /-
 `LineSafe` from a matcher-level contract: if "the pattern matches the span [s, e) of a haystack" is a relation
-`Mt` such that matches stay clear of the terminator, are context independent on line windows, the engine is
-leftmost and the candidate finder sound, then the matcher is line safe on every buffer (one-byte terminator).
+`Mt` such that matches stay clear of the terminator, are context independent on line windows, the engine
+never jumps over a match (no match ends before the reported one starts) and the candidate finder sound, then the matcher is line safe on every buffer (one-byte terminator).
 The regex-level half (C11 / `Props/C01Regex.lean`) provides these clauses for `Rx.Matches`.
 -/
 namespace RgVerif.Searcher
